@@ -2,6 +2,7 @@
 import ast
 import multiprocessing as mp
 import os
+import sys
 import time
 from fractions import Fraction
 
@@ -267,8 +268,11 @@ def verify_function(ctx, relpath, qual, canary=True, struct=None, label=None):
         if s.status in ('normal', 'return'):
             report['returns'] += 1
             post = s.fork()
-            post.env = penv
+            post.env = dict(penv)
             post.env['result'] = s.retval
+            for gn in c.ghost_out:
+                if gn in s.env:
+                    post.env[gn] = s.env[gn]
             canary_states.append(post.fork())
             fr.spec_only = True
             all_ens = list(c.ensures) + ['self.%s is (%s)' % (an, ex) for an, ex in c.sets.items()]
@@ -420,157 +424,160 @@ def obligation_keys(obligations):
     return out
 
 
-def _job(args):
-    (oid, strat, part, nparts, text, timeout, backend) = args
-    st_, secs, be = smt.solve_text((text, timeout, backend))
-    return oid, strat, part, nparts, st_, secs, be
+_G = {}
+
+
+def _solve_asserts(asserts, timeout, be):
+    """-> 'unsat' | 'sat' | 'unknown' for one quantifier-free VC on one back end."""
+    if be == 'z3py':
+        sv = z3.Solver()
+        sv.set('timeout', int(timeout * 1000))
+        sv.add(*asserts)
+        r = sv.check()
+        return 'sat' if r == z3.sat else ('unsat' if r == z3.unsat else 'unknown')
+    text = smt.smt2_of(asserts)
+    return smt.solve_text((text, timeout, be))[0]
+
+
+def _work(args):
+    """Worker (forked: sees the obligations and their closures). args = (index, strategy, timeout).
+    strategy = (name, kind, rounds, nosum, backend); kind in ground/full/cases."""
+    idx, strat, timeout = args
+    name, kind, r, ns, be = strat
+    ctx, ob = _G['ctx'], _G['obs'][idx]
+    t0 = time.time()
+    try:
+        if kind == 'ground':
+            parts = [list(ctx.axioms) + list(ob.hyps) + [z3.Not(ob.goal)]]
+        elif kind == 'full':
+            parts = [prepare(ctx, ob, r, nosum=ns)]
+        else:
+            parts = split_cases(ctx, ob, r, nosum=ns)
+            if not parts:
+                return idx, name, be, 'unknown', time.time() - t0, None
+        status = 'unsat'
+        for asserts in parts:
+            left = max(1.0, timeout - (time.time() - t0))
+            st_ = _solve_asserts(asserts, left, be)
+            if st_ != 'unsat':
+                status = st_ if (kind == 'full' and len(parts) == 1) else 'unknown'
+                break
+        return idx, name, be, status, time.time() - t0, None
+    except Exception as e:
+        return idx, name, be, 'unknown', time.time() - t0, 'strategy %s failed for %s: %r' % (name, ob.name, e)
+
+
+def portfolio(ctx, ob, rounds, backends):
+    """Strategies tried concurrently in the last phase: (name, kind, rounds, nosum, backend, refutes)."""
+    nosum_ok = bool(ctx.registry.sums) and not smt.has_sum(ob.goal, ctx.registry)
+    deep_r = max(rounds + 1, getattr(ob, 'min_rounds', 0))
+    plan = [('full%d' % rounds, 'full', rounds, False, be, False) for be in backends]
+    plan.append(('full%d' % deep_r, 'full', deep_r, False, backends[0], True))
+    plan.append(('full%d/nra' % deep_r, 'full', deep_r, False, 'z3py-nra', False))
+    if nosum_ok:
+        plan.append(('full1/nosum', 'full', 1, True, backends[0], False))
+    if any(k.get_id() in smt.SK_BOUNDS for k in ob.skolems):
+        for cr in range(1, rounds + 2):
+            plan.append(('cases/inst%d' % cr, 'cases', cr, False, backends[0], False))
+        plan.append(('cases/inst%d/nra' % (rounds + 1), 'cases', rounds + 1, False, 'z3py-nra', False))
+        if nosum_ok:
+            plan.append(('cases/inst1/nosum', 'cases', 1, True, backends[0], False))
+    return plan
 
 
 def discharge(ctx, obligations=None, timeout=20, procs=None, backends=('z3py', 'z3-4.8'), rounds=2, progress=None):
     """Discharge obligations. Phase 1: ground VC; phase 2: one instantiation round; phase 3: a portfolio run
-    concurrently (full instantiation on every back end, proof by cases on the last index of bounded skolems).
-    Status: discharged (some strategy unsat) / refuted (fully instantiated VC sat: candidate counterexample)
+    concurrently (full instantiation on every back end, NRA abstraction, proof by cases on the last index of bounded
+    skolems), the strategy that worked last time first. Workers are forked, so instantiation runs in parallel too.
+    Status: discharged (some strategy unsat) / refuted (deepest fully instantiated VC sat: candidate counterexample)
     / undecided."""
     obligations = ctx.obligations if obligations is None else obligations
     procs = procs or min(16, os.cpu_count() or 4)
     t0 = time.time()
     todo = []
-    for ob in obligations:
+    for i, ob in enumerate(obligations):
         if z3.is_true(z3.simplify(ob.goal)):
             ob.status, ob.backend = 'discharged', 'rewriter'
         else:
-            todo.append(ob)
-    byid = {id(o): o for o in todo}
-
-    def run_jobs(pool, jobs, done_pred):
-        """jobs: list of _job args. Streams results; stops early when done_pred() is true."""
-        it = pool.imap_unordered(_job, jobs, chunksize=1)
-        for r in it:
-            yield r
-            if done_pred():
-                break
-
+            todo.append(i)
     if todo:
+        _G['ctx'], _G['obs'] = ctx, obligations
+        keys = obligation_keys(obligations)
+        hints = load_strategy_hints()
         pool = mp.Pool(procs)
         try:
-            # phase 1 / 2
-            for stage, tmo in ((0, min(timeout, 3)), (1, min(timeout, 6))):
+            for (name, kind, r, tmo) in (('stage0', 'ground', 0, min(timeout, 3)), ('stage1', 'full', 1, min(timeout, 6))):
                 if not todo:
                     break
-                jobs = []
-                for ob in todo:
-                    try:
-                        if stage == 0:
-                            asserts = list(ctx.axioms) + list(ob.hyps) + [z3.Not(ob.goal)]
-                        else:
-                            asserts = prepare(ctx, ob, stage)
-                    except Exception as e:
-                        ctx.notes.append('instantiation failed for %s: %r' % (ob.name, e))
-                        continue
-                    jobs.append((id(ob), 'stage%d' % stage, 0, 1, smt.smt2_of(asserts), tmo, backends[0]))
-                nxt = {id(o) for o in todo}
-                for (oid, strat, part, nparts, st_, secs, be) in pool.imap_unordered(_job, jobs, chunksize=1):
-                    ob = byid[oid]
+                t_ph = time.time()
+                jobs = [(i, (name, kind, r, False, backends[0]), tmo) for i in todo]
+                left = set(todo)
+                for (i, nm, be, st_, secs, err) in pool.imap_unordered(_work, jobs, chunksize=1):
+                    ob = obligations[i]
                     ob.seconds += secs
+                    if err:
+                        ctx.notes.append(err)
                     if st_ == 'unsat':
-                        ob.status, ob.backend = 'discharged', '%s/%s' % (be, strat)
-                        nxt.discard(oid)
-                todo = [o for o in todo if id(o) in nxt]
-            # phase 3: portfolio (the strategy that worked last time for this obligation is tried first)
+                        ob.status, ob.backend = 'discharged', '%s/%s' % (be, nm)
+                        left.discard(i)
+                todo = [i for i in todo if i in left]
+                if os.environ.get('VF_TIMING'):
+                    print('%s: %.1fs, %d left' % (name, time.time() - t_ph, len(todo)), file=sys.stderr)
             if todo:
-                hints = load_strategy_hints()
-                keys = obligation_keys(obligations)
-
-                def build(ob, only=None):
-                    """list of (strat, [texts], backend, refutes)"""
-                    out = []
-                    nosum_ok = bool(ctx.registry.sums) and not smt.has_sum(ob.goal, ctx.registry)
-                    deep_r = max(rounds + 1, getattr(ob, 'min_rounds', 0))
-                    plan = [('full%d' % rounds, 'full', rounds, False, be) for be in backends]
-                    plan.append(('full%d' % deep_r, 'full', deep_r, False, backends[0]))
-                    plan.append(('full%d/nra' % deep_r, 'full', deep_r, False, 'z3py-nra'))
-                    if nosum_ok:
-                        plan.append(('full1/nosum', 'full', 1, True, backends[0]))
-                    for cr in range(1, rounds + 2):
-                        plan.append(('cases/inst%d' % cr, 'cases', cr, False, backends[0]))
-                    plan.append(('cases/inst%d/nra' % (rounds + 1), 'cases', rounds + 1, False, 'z3py-nra'))
-                    if nosum_ok:
-                        plan.append(('cases/inst1/nosum', 'cases', 1, True, backends[0]))
-                    cache = {}
-                    for (strat, kind, r, ns, be) in plan:
-                        if only is not None and strat != only:
-                            continue
-                        try:
-                            if (kind, r, ns) not in cache:
-                                if kind == 'full':
-                                    cache[(kind, r, ns)] = [smt.smt2_of(prepare(ctx, ob, r, nosum=ns))]
-                                else:
-                                    cs = split_cases(ctx, ob, r, nosum=ns)
-                                    cache[(kind, r, ns)] = [smt.smt2_of(c) for c in cs] if cs else None
-                            texts = cache[(kind, r, ns)]
-                        except Exception as e:
-                            ctx.notes.append('strategy %s failed for %s: %r' % (strat, ob.name, e))
-                            texts = None
-                        if texts:
-                            out.append((strat, texts, be, kind == 'full' and not ns and be != 'z3py-nra' and r == deep_r))
-                    return out
-
-                def run_wave(obs, only_hint):
-                    jobs = []
-                    state = {}
-                    for ob in obs:
-                        st = state[id(ob)] = dict(resolved=False, sat=False, parts={}, open=0)
-                        for (strat, texts, be, refutes) in build(ob, hints.get(keys[id(ob)]) if only_hint else None):
-                            st['parts'][strat] = [None] * len(texts)
-                            st.setdefault('refutes', {})[strat] = refutes
-                            for k, txt in enumerate(texts):
-                                jobs.append((id(ob), strat, k, len(texts), txt, timeout, be))
-                                st['open'] += 1
-                        if st['open'] == 0:
-                            st['resolved'] = True
-
-                    def all_done():
-                        return all(s_['resolved'] for s_ in state.values())
-                    if jobs:
-                        for (oid, strat, part, nparts, st_, secs, be) in run_jobs(pool, jobs, all_done):
-                            ob = byid[oid]
-                            st = state[oid]
-                            st['open'] -= 1
-                            if st['resolved']:
-                                continue
+                def wave(idxs, hinted):
+                    jobs, state = [], {}
+                    for i in idxs:
+                        ob = obligations[i]
+                        plan = portfolio(ctx, ob, rounds, backends)
+                        if hinted:
+                            plan = [p for p in plan if p[0] == hints.get(keys[id(ob)])]
+                        state[i] = dict(open=len(plan), resolved=len(plan) == 0, sat=None, refutes={(p[0], p[4]): p[5] for p in plan})
+                        for p in plan:
+                            jobs.append((i, p[:5], timeout))
+                    if not jobs:
+                        return state
+                    for (i, nm, be, st_, secs, err) in pool.imap_unordered(_work, jobs, chunksize=1):
+                        ob, st = obligations[i], state[i]
+                        st['open'] -= 1
+                        if err:
+                            ctx.notes.append(err)
+                        if not st['resolved']:
                             ob.seconds += secs
-                            st['parts'][strat][part] = st_
-                            if all(x == 'unsat' for x in st['parts'][strat]):
-                                ob.status, ob.backend = 'discharged', '%s/%s' % (be, strat)
-                                ob.strategy = strat
+                            if st_ == 'unsat':
+                                ob.status, ob.backend, ob.strategy = 'discharged', '%s/%s' % (be, nm), nm
                                 st['resolved'] = True
-                            elif st_ == 'sat' and st['refutes'].get(strat):
-                                st['sat'] = '%s/%s' % (be, strat)
-                            if not st['resolved'] and st['open'] == 0:
+                            elif st_ == 'sat' and st['refutes'].get((nm, be)):
+                                st['sat'] = '%s/%s' % (be, nm)
+                            if st['open'] == 0:
                                 st['resolved'] = True
+                        if all(x['resolved'] for x in state.values()):
+                            break
                     return state
-
-                hinted = [ob for ob in todo if keys[id(ob)] in hints]
+                t_ph = time.time()
+                hinted = [i for i in todo if keys[id(obligations[i])] in hints]
                 if hinted:
-                    run_wave(hinted, True)
-                rest = [ob for ob in todo if ob.status is None]
-                if rest:
-                    # the pool may still be busy with abandoned jobs of the first wave: use a fresh one
+                    wave(hinted, True)
                     pool.terminate()
                     pool.join()
                     pool = mp.Pool(procs)
-                    state = run_wave(rest, False)
-                    for ob in rest:
+                rest = [i for i in todo if obligations[i].status is None]
+                if rest:
+                    state = wave(rest, False)
+                    for i in rest:
+                        ob = obligations[i]
                         if ob.status is None:
-                            st = state[id(ob)]
-                            if st['sat']:
-                                ob.status, ob.backend = 'refuted', st['sat']
+                            if state[i]['sat']:
+                                ob.status, ob.backend = 'refuted', state[i]['sat']
                             else:
                                 ob.status, ob.backend = 'undecided', 'all-unknown'
-                save_strategy_hints({keys[id(o)]: o.strategy for o in todo if getattr(o, 'strategy', None)})
+                save_strategy_hints({keys[id(obligations[i])]: obligations[i].strategy for i in todo
+                                     if getattr(obligations[i], 'strategy', None)})
+                if os.environ.get('VF_TIMING'):
+                    print('portfolio: %.1fs for %d obligations' % (time.time() - t_ph, len(todo)), file=sys.stderr)
         finally:
             pool.terminate()
             pool.join()
+            _G.clear()
     for ob in obligations:
         if ob.status is None:
             ob.status, ob.backend = 'undecided', 'not-run'
